@@ -18,10 +18,11 @@ Fixpoint tr_filters (d : dname) (es : list expr) : option (list qx) :=
   end.
 
 (* WHERE and HAVING as the translator fills them.  The `if` items in hs are those that mention the count.  The loop over the ifs of
-   SQLTranslator.init sends a condition to HAVING when its monad is marked `aggregated`; an item that is a *value* (tested for
-   truth: `if len(g.members)`, `if coalesce(g.level, len(g.members))`) is turned into a condition by NumericMixin.nonzero, which
-   does not carry the mark over - such an item stays in WHERE (StringMixin.nonzero does carry it over) *)
-Definition loses_mark (e : expr) : bool := match ty_of e with Some (TV TInt) | Some (TV TBool) => true | _ => false end.
+   SQLTranslator.init sends a condition to HAVING when its monad is marked `aggregated`; an item that is an integer *value* (tested
+   for truth: `if len(g.members)`, `if coalesce(g.level, len(g.members))`) is turned into a condition by NumericMixin.nonzero,
+   which does not carry the mark over - such an item stays in WHERE (StringMixin.nonzero does carry it over; a bool value is used
+   as it is) *)
+Definition loses_mark (e : expr) : bool := match ty_of e with Some (TV TInt) => true | _ => false end.
 Definition tr_len_raw (d : dname) (ws hs : list expr) : option (list qx * list qx) :=
   match tr_filters d ws, tr_filters d (filter loses_mark hs), tr_filters d (filter (fun e => negb (loses_mark e)) hs) with
   | Some w, Some w2, Some h => Some (w ++ w2, h)
